@@ -215,6 +215,10 @@ def judge(meta, ev, st):
     """-> [(key, text)]"""
     if not ev or ev[-1][0] != "end":
         return []                         # process died: reported through the sanitizer/crash path
+    if any(e[0] == "inflight-timeout" for e in ev):
+        # the kernel still had bytes queued after the harness' 3 s real-time watchdog: no verdict for this case
+        st["inflight_timeout_cases"] = st.get("inflight_timeout_cases", 0) + 1
+        return []
     raw = judge_srv(meta, ev, st) if meta["dir"] == "srv" else judge_cli(meta, ev, st)
     tag = meta["tag"]
     res = []
